@@ -191,7 +191,14 @@ func (r *Report) Finish(verifDir string, start time.Time, seed int64) int {
 		pr.Instances++
 		switch o.Status {
 		case "violated":
-			if k, ok := kf[o.Rule+"\x00"+o.Key]; ok {
+			// an obligation of an additional build configuration ("R08a@linux/386|...") is the same
+			// construct as the host configuration's: known findings are keyed without the suffix
+			mr, mk := o.Rule, o.Key
+			if at := strings.Index(mr, "@"); at >= 0 {
+				mk = strings.Replace(mk, mr, mr[:at], 1)
+				mr = mr[:at]
+			}
+			if k, ok := kf[mr+"\x00"+mk]; ok {
 				o.Status = "known-finding"
 				o.Reason += " [known finding: " + k.Witness + "]"
 				knownHits = append(knownHits, o)
